@@ -163,6 +163,11 @@ var crashFamily = []string{
 	"App:\n    <-> Ev%zz:\n        ...\n",
 	"App:\n    Other%zz -> Ev:\n        ...\n",
 	"App[~x, a=\"%zz\"]:\n    @b = [[\"%\"], []]\n    ...\n",
+	// lint of a call that names a simple endpoint with a REST method (nil method map, linter.go lintEndpoint)
+	"A:\n    foo:\n        ...\nB:\n    bar:\n        A <- GET foo\n",
+	// collector call template whose target extends an ordinary call's target by one more namespace part
+	"Payments:\n    Post:\n        ...\nPayments :: Ledger:\n    Post:\n        ...\nShop:\n    Buy:\n        Payments <- Post\n    .. * <- *:\n        Payments :: Ledger <- Post [~audited]\n",
+	"Shop:\n    Buy:\n        A :: B :: C <- Post\n    .. * <- *:\n        A <- Post [~x]\n        A :: B <- Post [~y]\n",
 }
 
 // ---------- stream B: field-type forms (bounded-exhaustive in thorough, sampled in quick) ----------
@@ -303,7 +308,10 @@ func mutate(r *common.Rng, src string) (string, string) {
 func odd(r *common.Rng) string {
 	var sb strings.Builder
 	napps := 1 + r.Intn(3)
-	names := []string{"A", "B", "C", "Ns :: D", "E%20F", "G%2FH"}
+	names := []string{"A", "B", "C", "Ns :: D", "E%20F", "G%2FH", "A :: B", "A :: B :: C", "Ns"}
+	// call targets share prefixes of different lengths with each other and with the declared apps
+	targets := []string{"A", "B", "Nope", ".", "Ns :: D", "A :: B", "A :: B :: C", "Ns", "Ns :: D :: X"}
+	eps := []string{"E0", "E1", "E2", "GET /p0/{id}", "POST /p1/{id}", "GET E0", "PATCH /p0", "GET /nope", "Ev"}
 	prim := []string{"int", "string", "bool", "date", "decimal(5.2)", "string(10)", "int(1..5)", "Nope", "A.T", "B.Missing", "T", "sequence of T", "set of Nope", "any", "bytes(3)", "int64", "float32"}
 	for i := 0; i < napps; i++ {
 		an := names[r.Intn(len(names))]
@@ -346,7 +354,7 @@ func odd(r *common.Rng) string {
 			case 4:
 				fmt.Fprintf(&sb, "    !union U:\n        %s\n        %s\n", []string{"T", "int", "Nope", "T0"}[r.Intn(4)], []string{"T1", "string", "U"}[r.Intn(3)])
 			case 5:
-				fmt.Fprintf(&sb, "    -|> %s\n", []string{"A", "B", "Nope", "Ns :: D"}[r.Intn(4)])
+				fmt.Fprintf(&sb, "    -|> %s\n", targets[r.Intn(len(targets))])
 			case 6:
 				fmt.Fprintf(&sb, "    /p%d/{id <: %s}:\n        %s:\n            return ok <: %s\n", r.Intn(2), []string{"int", "string", "T", "Nope"}[r.Intn(4)], []string{"GET", "POST", "PATCH", "DELETE", "PUT"}[r.Intn(5)], prim[r.Intn(len(prim))])
 			case 7:
@@ -354,7 +362,18 @@ func odd(r *common.Rng) string {
 			case 8:
 				fmt.Fprintf(&sb, "    %s -> Ev:\n        ...\n", []string{"A", "B", "Nope"}[r.Intn(3)])
 			case 9:
-				sb.WriteString("    .. * <- *:\n        A <- E0 [~x]\n        Nope <- Q [~y]\n")
+				sb.WriteString("    .. * <- *:\n")
+				nt := 1 + r.Intn(4)
+				for k := 0; k < nt; k++ {
+					switch r.Intn(5) {
+					case 0:
+						fmt.Fprintf(&sb, "        %s -> %s [~s%d]\n", targets[r.Intn(len(targets))], []string{"Ev", "Ev2"}[r.Intn(2)], k)
+					case 1:
+						fmt.Fprintf(&sb, "        %s [~e%d]\n", eps[r.Intn(len(eps))], k)
+					default:
+						fmt.Fprintf(&sb, "        %s <- %s [~x%d, k=\"v\", l=[\"a\", \"b\"]]\n", targets[r.Intn(len(targets))], eps[r.Intn(len(eps))], k)
+					}
+				}
 			case 10:
 				fmt.Fprintf(&sb, "    !view v%d(a <: %s) -> %s:\n        a -> (:\n            x = %s\n        )\n", r.Intn(2), prim[r.Intn(4)], prim[r.Intn(4)], []string{"1", "a", "a + 1", "\"s\"", "a.b", "a -> <T>(:\n                y = .\n            )"}[r.Intn(6)])
 			default:
@@ -370,7 +389,7 @@ func odd(r *common.Rng) string {
 					for k := 0; k < ns; k++ {
 						switch r.Intn(10) {
 						case 0:
-							fmt.Fprintf(&sb, "%s%s <- E%d\n", ind, []string{"A", "B", "Nope", ".", "Ns :: D"}[r.Intn(5)], r.Intn(3))
+							fmt.Fprintf(&sb, "%s%s <- %s\n", ind, targets[r.Intn(len(targets))], eps[r.Intn(len(eps))])
 						case 1:
 							fmt.Fprintf(&sb, "%sreturn %s\n", ind, []string{"ok", "ok <: T", "error <: Nope", "200", "ok <: sequence of A.T", "x y z"}[r.Intn(6)])
 						case 2:
@@ -677,6 +696,55 @@ Local Open Scope Z_scope.`
 		c.Hist("closure-obs:" + r.Outcome + fmt.Sprint(r.Code))
 	}
 	cc.Close()
+
+	// E2: deep and wide import closures (long chains, wide fans, chain+fan, long cycles): termination of the collector
+	ndeep := 10
+	if big {
+		ndeep = 60
+	}
+	for i := 0; i < ndeep; i++ {
+		fl := map[string]string{}
+		shape := i % 5
+		n := 17 + c.Rng.Intn(30)
+		name := func(k int) string { return fmt.Sprintf("d%d.sysl", k) }
+		for k := 0; k < n; k++ {
+			var imp strings.Builder
+			switch shape {
+			case 0: // chain
+				if k+1 < n {
+					fmt.Fprintf(&imp, "import d%d\n", k+1)
+				}
+			case 1: // fan from the root
+				if k == 0 {
+					for q := 1; q < n; q++ {
+						fmt.Fprintf(&imp, "import d%d\n", q)
+					}
+				}
+			case 2: // chain where every file also imports the root and itself (cycles)
+				if k+1 < n {
+					fmt.Fprintf(&imp, "import d%d\n", k+1)
+				}
+				fmt.Fprintf(&imp, "import d0\nimport d%d\n", k)
+			case 3: // binary tree
+				if 2*k+1 < n {
+					fmt.Fprintf(&imp, "import d%d\n", 2*k+1)
+				}
+				if 2*k+2 < n {
+					fmt.Fprintf(&imp, "import d%d\n", 2*k+2)
+				}
+			default: // every file imports the next three (dense DAG)
+				for q := 1; q <= 3 && k+q < n; q++ {
+					fmt.Fprintf(&imp, "import d%d\n", k+q)
+				}
+			}
+			fl[name(k)] = imp.String() + fmt.Sprintf("App%d:\n    ...\n", k)
+		}
+		cs := caseT{Stream: "deep-closure", Files: fl, Root: "d0.sysl", Note: fmt.Sprintf("import closure of %d files, shape %d (0 chain, 1 fan, 2 chain with cycles, 3 tree, 4 dense)", n, shape)}
+		r := do(cs)
+		if r.Outcome == "model" && r.Apps != n {
+			c.Fail("closure-incomplete", fmt.Sprintf("%s compiled to %d applications, %d declared", cs.Note, r.Apps, n), cs)
+		}
+	}
 
 	// F: the real binary on a sample: exit status and stderr markers
 	if bin := os.Getenv("VERIF_SYSL_BIN"); bin != "" {
